@@ -355,6 +355,31 @@ def r03_3(ctx: Ctx) -> None:
                     good = True
         ctx.check(good, "R03.3", f, r, "sanitiser returns only under is_relative_to(canonical_path(join), base)",
                   "the sanitiser returns a path on a branch where containment was not established (no true is_relative_to(canonical_path(...), base) guard)")
+        if not good or r.value is None:
+            continue
+        # ... and what is returned is what was validated: the validated value itself, that value made relative, or a path built from
+        # exactly the expression that was joined to the base (same text => same location; "./" + "/abs" stripped on one side only is not)
+        same = False
+        for cond, pol in facts:
+            if not (pol and isinstance(cond, ast.Call) and attr_tail(cond) == "is_relative_to" and len(cond.args) >= 2):
+                continue
+            v = cond.args[0]
+            vnames = {n.id for n in ast.walk(v) if isinstance(n, ast.Name)} - set(f.params)
+            rnames = {n.id for n in ast.walk(r.value) if isinstance(n, ast.Name)}
+            if vnames and vnames <= rnames:
+                same = True
+            vexp = q.expand_locals(f, v)
+            rexp = q.expand_locals(f, r.value)
+            if norm(vexp) in norm(rexp):
+                same = True
+            joined = [c.args[0] for c in ast.walk(vexp) if isinstance(c, ast.Call) and attr_tail(c) == "joinpath" and c.args]
+            rargs = [rexp] + [c.args[0] for c in ast.walk(rexp) if isinstance(c, ast.Call) and attr_tail(c) in ("Path", "PurePath") and c.args]
+            if any(norm(j) == norm(a) for j in joined for a in rargs):
+                same = True
+        ctx.check(same, "R03.3", f, r, "sanitiser returns the validated path (same joined expression)",
+                  "the sanitiser validates one spelling of the member name and returns another (e.g. the './' marker is stripped only on the "
+                  "returned side): a name like './/abs/path' is validated as cwd/abs/path and handed back as /abs/path",
+                  construct=f"returned-vs-validated {norm(r.value)[:60]}")
     # fall-off-the-end would return None: every non-return exit must raise
     last_nodes = [p for p in cfg.exit.pred if not (p.kind == "stmt" and isinstance(p.ast, ast.Return))]
     ctx.check(not last_nodes, "R03.3", f, f.node, "every other exit of the sanitiser raises",
@@ -451,15 +476,14 @@ def r03_4(ctx: Ctx, taint: Taint, closure, sinks, link_sinks, roots) -> None:
                 # failing outcome must raise: either `if not check: raise` / `if check: ... else: raise`, or the callee raises itself
                 raises = False
                 if kn.kind == "test":
+                    # the edge on which the sink may be reached must IMPLY that the check passed (an `A and not check` guard
+                    # raises only when A holds: its fall-through edge says nothing about the check), the other edge must raise
                     for pol in (True, False):
-                        for atom, ap in q.atoms(kn.ast, pol):
-                            if atom is chk or (isinstance(atom, ast.Call) and atom is chk):
-                                bad_edge = next((s for s in kn.succ if s.kind == ("true" if (pol != ap) else "false")), None)
-                                # atom true under pol when ap True; the *failing* edge is where atom is False
-                                fail_pol = pol if not ap else (not pol)
-                                fe = next((s for s in kn.succ if s.kind == ("true" if fail_pol else "false")), None)
-                                if fe is not None and q.branch_always_raises(cfg, fe) and not cfg.reaches(fe, cn):
-                                    raises = True
+                        if not any(atom is chk and ap for atom, ap in q.atoms(kn.ast, pol)):
+                            continue
+                        fe = next((s for s in kn.succ if s.kind == ("false" if pol else "true")), None)
+                        if fe is not None and q.branch_always_raises(cfg, fe) and not cfg.reaches(fe, cn):
+                            raises = True
                 else:
                     # a checker that raises by itself (no boolean result consumed)
                     for t in cs.targets:
